@@ -7,6 +7,7 @@ package servlib
 
 import (
 	"bytes"
+	"crypto/tls"
 	"errors"
 	"fmt"
 	"io"
@@ -449,7 +450,7 @@ func NewServer(cfg Cfg, handler func(ctx *fasthttp.RequestCtx, num int)) *fastht
 }
 
 // Start serves conn through Serve (a listener that yields just this connection) or ServeConn.
-func Start(s *fasthttp.Server, cfg Cfg, conn *Conn) *Run {
+func Start(s *fasthttp.Server, cfg Cfg, conn *Conn, nc net.Conn) *Run {
 	r := &Run{Srv: s, Conn: conn, Done: make(chan struct{})}
 	s.ConnState = func(c net.Conn, st fasthttp.ConnState) {
 		sent := conn.Sent()
@@ -466,7 +467,7 @@ func Start(s *fasthttp.Server, cfg Cfg, conn *Conn) *Run {
 	}
 	if cfg.ServeConn {
 		go func() {
-			r.Err = s.ServeConn(conn)
+			r.Err = s.ServeConn(nc)
 			select {
 			case <-r.Done:
 			default:
@@ -475,7 +476,7 @@ func Start(s *fasthttp.Server, cfg Cfg, conn *Conn) *Run {
 		}()
 	} else {
 		r.ln = &oneListener{ch: make(chan net.Conn, 1), closed: make(chan struct{})}
-		r.ln.ch <- conn
+		r.ln.ch <- nc
 		go s.Serve(r.ln) //nolint:errcheck
 	}
 	return r
@@ -524,6 +525,7 @@ type Scenario struct {
 	HjIn    int    `json:"hjin,omitempty"`   // hijack handler: bytes to read before returning (-1: until EOF)
 	HjLate  bool   `json:"hjlate,omitempty"` // KeepHijackedConns: keep reading (to EOF) after the handler returned
 	GoneAt  int    `json:"gone,omitempty"`   // Serve only: during the read that delivers the first byte of this request (1-based read count), Shutdown runs and closes the connection as idle
+	TLS     string `json:"tls,omitempty"`    // the connection offers Handshake/ConnectionState: "h2" (NextProto handler registered), "fail" (handshake error), "none" (no protocol negotiated)
 	Early   bool   `json:"early,omitempty"`  // observe whether the server closes on its own after the last step
 	StepGap int    `json:"gap,omitempty"`    // ms to sleep before each step
 }
@@ -687,6 +689,18 @@ func RunScenario(sc Scenario) Result {
 		srv.ContinueHandler = func(h *fasthttp.RequestHeader) bool { return xst(targetIndex(h.RequestURI())) == 100 }
 	}
 
+	// a TLS-looking connection: NextProto delegation or a failing handshake
+	var nc net.Conn = conn
+	if sc.TLS != "" {
+		nc = &TLSConn{Conn: conn, Proto: sc.TLS}
+		srv.NextProto("h2", func(c net.Conn) error {
+			buf := make([]byte, 64)
+			c.Read(buf)                 //nolint:errcheck
+			c.Write([]byte("PROTO-H2")) //nolint:errcheck
+			return nil
+		})
+	}
+
 	// rejection scenarios need another connection that occupies the limit
 	var blocker *Conn
 	release := make(chan struct{})
@@ -748,7 +762,7 @@ func RunScenario(sc Scenario) Result {
 			blocker.Wait(2*time.Second, func() bool { return len(blocker.ReadLog) > 0 })
 			time.Sleep(5 * time.Millisecond)
 		}
-		run = Start(srv, sc.Cfg, conn)
+		run = Start(srv, sc.Cfg, conn, nc)
 		if sc.Reject != "" {
 			// only hooks of the connection under test count
 			base := srv.ConnState
@@ -926,4 +940,25 @@ func HasCloseOption(vals []string) bool {
 		}
 	}
 	return false
+}
+
+// TLSConn makes a Conn look like a TLS connection to Server.getNextProto.
+type TLSConn struct {
+	*Conn
+	Proto string
+}
+
+func (t *TLSConn) Handshake() error {
+	if t.Proto == "fail" {
+		return errors.New("tls: handshake failure")
+	}
+	return nil
+}
+
+func (t *TLSConn) ConnectionState() tls.ConnectionState {
+	p := t.Proto
+	if p == "none" || p == "fail" {
+		p = ""
+	}
+	return tls.ConnectionState{NegotiatedProtocol: p, HandshakeComplete: true}
 }
